@@ -1,2 +1,3 @@
-import MiniVecProof.Model.Basic
-import MiniVecProof.Model.GM
+import MiniVecProof.Model.World
+import MiniVecProof.Props.C09
+import MiniVecProof.Props.C11
